@@ -329,6 +329,9 @@ func registerIntrinsics(e *Engine) {
 		}
 		return mkScalar(fr.i.ps, utf8ValidTerm(ts), types.Bool)
 	}
+	// copies of a string are the string (strconv's error values clone the offending text)
+	in["internal/stringslite.Clone"] = func(fr *frame, a []value) value { return a[0] }
+	in["strings.Clone"] = func(fr *frame, a []value) value { return a[0] }
 	in["strings.HasPrefix"] = func(fr *frame, a []value) value {
 		p := mustStr(a[1], "HasPrefix prefix")
 		ts := strTerms(a[0])
